@@ -673,6 +673,9 @@ def _ancestral_sibling(h: Hugr, src: Node, tgt: Node) -> Node | None:
     while (tgt_parent := h[tgt].parent) is not None:
         if tgt_parent == src_parent:
             return tgt
+        if isinstance(h[tgt_parent].op, ops.FuncDefn):
+            # a value edge cannot enter a function body from outside
+            return None
         tgt = tgt_parent
 
     return None
